@@ -1285,3 +1285,60 @@ impl Modeled for TailEmptyE {
 #[derive(Encode, Decode)]
 #[repr(transparent)]
 pub struct TransBig(pub [u8; 1 << 20]);
+
+/// Attributes written with a trailing comma (`#[codec(skip,)]`, as in `#[derive(A, B,)]`): accepted
+/// by the derive's attribute check, so they must be honoured (finding F8: they were ignored).
+#[derive(Encode, Decode, DecodeWithMemTracking, MaxEncodedLen, PartialEq, Debug, Clone)]
+pub struct TrailingComma {
+	#[codec(skip,)]
+	pub a: u32,
+	#[codec(compact,)]
+	pub b: u32,
+	#[codec(encoded_as = "Compact<u64>",)]
+	pub c: u64,
+	pub d: u8,
+}
+impl Modeled for TrailingComma {
+	fn ty(_d: usize) -> String {
+		"tup 3 c 4 c 8 u8".into()
+	}
+	fn val(&self, out: &mut String, _c: bool) {
+		write!(out, "L 3 n{} n{} n{}", self.b, self.c, self.d).unwrap();
+	}
+	fn gen(g: &mut G) -> Self {
+		TrailingComma { a: 0, b: u32::gen(g), c: u64::gen(g), d: u8::gen(g) }
+	}
+	fn min_len() -> usize {
+		3
+	}
+}
+#[derive(Encode, Decode, DecodeWithMemTracking, MaxEncodedLen, PartialEq, Debug, Clone)]
+pub enum TrailingCommaE {
+	#[codec(index = 5,)]
+	A,
+	#[codec(skip,)]
+	B,
+	C(#[codec(compact,)] u16),
+}
+impl Modeled for TrailingCommaE {
+	fn ty(_d: usize) -> String {
+		"enum 2 5 tup 0 1 tup 1 c 2".into()
+	}
+	fn val(&self, out: &mut String, _c: bool) {
+		match self {
+			TrailingCommaE::A => out.push_str("V 5 L 0"),
+			TrailingCommaE::B => out.push('K'),
+			TrailingCommaE::C(x) => write!(out, "V 1 L 1 n{}", x).unwrap(),
+		}
+	}
+	fn gen(g: &mut G) -> Self {
+		if g.rng.chance(1, 2) {
+			TrailingCommaE::A
+		} else {
+			TrailingCommaE::C(u16::gen(g))
+		}
+	}
+	fn min_len() -> usize {
+		1
+	}
+}
